@@ -26,6 +26,7 @@ import (
 type Entry struct {
 	Path    string
 	IsDir   bool
+	IsLink  bool // a (relative) symbolic link to another entry of the same job
 	Size    int64 // lstat size right after the job wrote everything
 	Content string
 	Written bool
@@ -134,6 +135,28 @@ func (l *Ledger) leaf(j *simrun.Job, base, token, param string, isFileType bool)
 		if l.Entries[p] == nil {
 			l.add(&Entry{Path: p, Written: false, Kind: "out", Token: token, Job: j, Param: param})
 		}
+		return p, nil
+	}
+	if h%7 == 1 && l.Entries[p] == nil {
+		// the output is a relative symbolic link (h%14 == 1: a chain of
+		// two) to the file, which sits next to it
+		real := p + ".real"
+		if err := l.writeFile(j, real, token, "link-target", param); err != nil {
+			return nil, err
+		}
+		target := filepath.Base(real)
+		if h%14 == 1 {
+			mid := p + ".l2"
+			if err := os.Symlink(target, mid); err != nil {
+				return nil, err
+			}
+			l.add(&Entry{Path: mid, IsLink: true, Content: ContentFor(token), Written: true, Kind: "link-target", Token: token, Job: j, Param: param})
+			target = filepath.Base(mid)
+		}
+		if err := os.Symlink(target, p); err != nil {
+			return nil, err
+		}
+		l.add(&Entry{Path: p, IsLink: true, Content: ContentFor(token), Written: true, Kind: "out", Token: token, Job: j, Param: param})
 		return p, nil
 	}
 	return p, l.writeFile(j, p, token, "out", param)
